@@ -470,6 +470,64 @@ fn relayout(src: &str, rng: &mut Rng) -> Option<Relayout> {
     })
 }
 
+/// PAGE GEOMETRY: the same tokens, each placed at a chosen position relative to a power-of-two grid of the
+/// text (starting exactly on a multiple of P, one byte before / after it, or ending on it), with at least
+/// one or two whole pages of PURE ASCII blanks (space, TAB, LF, CR - no comments, no Unicode) in every
+/// gap.  A scanner that skips blanks a page / a word / a cache line at a time meets every token at every
+/// boundary.  Only for lexically valid sources.
+fn relayout_aligned(src: &str, rng: &mut Rng) -> Option<Relayout> {
+    let toks = rlex::lex(src).ok()?;
+    if toks.is_empty() || toks.len() > 400 {
+        return None;
+    }
+    let p = *rng.pick(&[8usize, 16, 64, 256, 512, 1024, 4096, 4096, 4096, 8192, 65_536]);
+    if p * toks.len() > 6_000_000 {
+        return None;
+    }
+    let blank = rng.pick_str(&[" ", " ", "\n", "\t", "\r\n", " \n", "\r"]);
+    let pages = rng.range(1, 2);
+    let mode = rng.below(5);
+    let mut text = String::new();
+    let mut starts = vec![];
+    for (i, t) in toks.iter().enumerate() {
+        let tok = &src[t.start..t.end];
+        // where this token starts, modulo p
+        let want = match if mode == 4 { rng.below(4) } else { mode } {
+            0 => 0,
+            1 => 1,
+            2 => p - 1,
+            _ => (p - tok.len() % p) % p,
+        };
+        // at least `pages` whole pages of blanks (not in front of the very first token half of the time)
+        let min_gap = if i == 0 && rng.chance(0.5) { 0 } else { pages * p };
+        let mut target = text.len() + min_gap;
+        while target % p != want {
+            target += 1;
+        }
+        while text.len() < target {
+            // (a two-byte blank unit may overshoot by one: fill the last byte with a space)
+            if text.len() + blank.len() <= target {
+                text.push_str(blank);
+            } else {
+                text.push(' ');
+            }
+        }
+        starts.push(text.len());
+        text.push_str(tok);
+    }
+    if rng.chance(0.7) {
+        let tail = pages * p + rng.below(3);
+        text.push_str(&" ".repeat(tail));
+    }
+    // validity: same kinds and texts
+    let again = rlex::lex(&text).ok()?;
+    if again.len() != toks.len() || again.iter().zip(&toks).any(|(a, b)| a.kind != b.kind || text[a.start..a.end] != src[b.start..b.end]) {
+        return None;
+    }
+    let map = toks.iter().zip(&starts).map(|(t, s)| (t.start, t.end, *s)).collect();
+    Some(Relayout { new_len: text.len(), text, map, old_len: src.len(), old_prefix_end: src.len(), new_prefix_end: 0 })
+}
+
 impl Relayout {
     fn map_pos(&self, p: usize) -> Option<usize> {
         if p >= self.old_prefix_end && self.old_prefix_end < self.old_len {
@@ -1320,11 +1378,16 @@ impl Text {
         }
         let base = render_outcome_for_layout(&out);
         let mut did = 0;
-        for _ in 0..6 {
-            let Some(r) = relayout(&src, rng) else {
+        for round in 0..6 {
+            // (one of the six re-layouts of every third source puts the tokens on a page grid)
+            let aligned = round == 5 && n % 5 == 0;
+            let Some(r) = (if aligned { relayout_aligned(&src, rng) } else { relayout(&src, rng) }) else {
                 w.count("relayout-not-possible");
                 continue;
             };
+            if aligned {
+                w.count("page-geometry-relayouts");
+            }
             if r.text == src {
                 continue;
             }
@@ -1406,7 +1469,7 @@ impl Engine for Text {
             "C13" => "inputs: generated grammars whose terminals have random payload types from the Kiki type grammar (unit, paths of 1-6 segments, generics nested to depth 8 with 1-4 arguments, unit as argument) written with random whitespace / comments between their tokens. One evaluation = one emitted module: at every use site (terminal enum variant, every struct / variant field of that terminal, node enum variant, try_into_* return type) the emitted type, re-tokenised, must equal the declared token sequence. Distinct non-trivial = distinct type expressions.".into(),
             "C14" => "inputs: sources of every class (accepted grammars incl. the repository examples, conflicting grammars, every validation error, parse errors, lexical errors). One evaluation = one call of generate; every input is run 8 times in one process on 8 fresh threads (fresh SipHash keys per HashMap; run k passes the text as a slice that starts k bytes into a buffer, i.e. at every alignment modulo 8; odd runs go through the batch of 16 inputs backwards and one run calls every input twice in a row, so a dependence on earlier calls is visible), 4 more times on 4 threads running at the same time (each starting at another offset of the batch, one of them also calling get_grammar_hash: state shared between concurrent calls) and once in each of 2 further processes (one of them confined to a single CPU; each with a different build-script-like process environment: OPT_LEVEL, PROFILE, TARGET, LANG ... and every variable kiki's sources read); the bytes of Ok results / the {:?} of errors (positions and attached automaton included) must be identical. One history of 70 000 calls on one thread compares the answers at calls 2^8, 2^12, 2^16 ... with the first. A canary HashSet iterated in every run records how many distinct hash orders were actually sampled. Distinct non-trivial = distinct inputs that reach the automaton construction (Ok or TableConflict).".into(),
             "C15" => "inputs: (a) accepted sources with / without trailing newline, CRLF, non-ASCII, leading comment up to 60 KB, and ONE source of 2^29 + 12 345 bytes (the bit length of the hashed message exceeds 32 bits): the emitted text must start with a // block containing `// @sha256 ` + the SHA-256 of the source computed by an independent implementation, get_grammar_hash must return exactly that digest, and the build-script freshness test (stored digest == digest of current file) must accept the same text and reject a text differing in one byte; (b) header-like texts assembled from fragments (//, `// @sha256 `, repeated prefixes, CR, CRLF, blank and non-comment lines, Unicode): get_grammar_hash vs the rule in the property statement. One evaluation = one text. Distinct non-trivial = distinct texts.".into(),
-            _ => "inputs: sources of every class (accepted, conflicting, every validation error, parse errors, lexical errors - there only the text before the offending lexeme is re-laid-out), each re-joined up to 6 times from the reference lexer's tokens with random separators: nothing where legal, any Unicode whitespace, LF / CRLF, // comments with arbitrary content, comment at the end without newline, everything on one line; every 211th source additionally gets one HUGE run (10^4 .. 10^6 comment lines, blank lines, spaces ...) inserted in one gap, run in a child process; validity of the re-layout (same kinds and texts) is re-checked with the reference lexer. One evaluation = one (source, re-layout) pair: Ok outputs must be identical outside the `// @sha256` line, errors identical after mapping every byte position through the token-start map. Distinct non-trivial = distinct sources with at least one re-layout.".into(),
+            _ => "inputs: sources of every class (accepted, conflicting, every validation error, parse errors, lexical errors - there only the text before the offending lexeme is re-laid-out), each re-joined up to 6 times from the reference lexer's tokens with random separators: nothing where legal, any Unicode whitespace, LF / CRLF, // comments with arbitrary content, comment at the end without newline, everything on one line; every fifth source also gets a PAGE-GEOMETRY layout (every token placed on / next to / ending at a multiple of 8 .. 65 536 bytes, with whole pages of pure ASCII blanks in every gap); every 211th source additionally gets one HUGE run (10^4 .. 10^6 comment lines, blank lines, spaces ...) inserted in one gap, run in a child process; validity of the re-layout (same kinds and texts) is re-checked with the reference lexer. One evaluation = one (source, re-layout) pair: Ok outputs must be identical outside the `// @sha256` line, errors identical after mapping every byte position through the token-start map. Distinct non-trivial = distinct sources with at least one re-layout.".into(),
         }
     }
     fn floors(&self, prop: &str, _tier: Tier, agg: &Agg) -> Vec<String> {
